@@ -771,6 +771,38 @@ func runReferrerCall(c *core.Ctx) {
 			}
 		}
 	}
+	// the helpers themselves: a nil return means the response was re-inserted into the index, or there was
+	// no response to update (the not-found edge of the lookup)
+	for _, h := range referrerHelpers(c) {
+		key := "helper-inserts:" + kn(c.P.FuncName(h))
+		bad := ""
+		type hst struct{ inserted, nothing bool }
+		an.Paths(an.PathSpec[hst]{Fn: h, Init: hst{},
+			Instr: func(s hst, in ssa.Instruction) []hst {
+				switch x := in.(type) {
+				case *ssa.Call:
+					if r.IsAPI(x, "Repo", "IndexInsert") {
+						s.inserted = true
+					}
+				case *ssa.Return:
+					if len(x.Results) == 1 && retErrNil(x) && !s.inserted && !s.nothing && bad == "" {
+						bad = fmt.Sprintf("`return nil` at %s is reachable without re-inserting the referrers response into the index: the update is reported as done while index.json still points at the previous response", c.P.Pos(x.Pos()))
+					}
+				}
+				return []hst{s}
+			},
+			Edge: func(s hst, from *ssa.BasicBlock, succ int) (hst, bool) {
+				if ifi := an.BlockIf(from); ifi != nil {
+					if x, tgt, trueSucc, ok := an.ErrIsTest(ifi); ok && succ == trueSucc && an.IsGlobalLoad(tgt, r.TypesPath, "ErrNotFound") {
+						if call, _ := an.CallOf(x); call != nil && an.IsMethod(call, r.TypesPath, "Index", "GetByAnnotation") {
+							s.nothing = true
+						}
+					}
+				}
+				return s, true
+			}})
+		c.Check(bad == "", key, h.Pos(), "%s", map[bool]string{true: "every nil return follows the index insert (or the ‘no response to update’ edge)", false: bad}[bad == ""])
+	}
 	// delete handler: update precedes the index removal
 	for _, f := range serverFuncs(c) {
 		var rm ssa.CallInstruction
